@@ -55,45 +55,83 @@ def r19_2(ctx):
     muts = param_mutations(ctx, f, args)
     ctx.check(not muts, "DirectCollocation.to_function works on a copy of the argument list", detail="caller's list modified in place (a second call with the same list misbehaves)",
               expected="args = list(args) before replacing the 'z' marker", found="; ".join(ast.unparse(m) for m in muts[:2]), fi=f, node=(muts[0] if muts else None))
-    # flags
-    defs = {}
-    for nm in ("add_xc", "add_zc"):
-        defs[nm] = [d for d in sc.defs.get(nm, []) if d.kind == "assign"]
-    last = {nm: (max(ds, key=lambda d: d.order).value if ds else None) for nm, ds in defs.items()}
-    kx = Norm(None).key(last["add_xc"]) if last["add_xc"] is not None else None
-    wantx = Norm(None).key(ast.parse("depends_on(all_args, states) and not depends_on(all_args, self.Xc_vars)", mode="eval").body)
-    ctx.check(kx == wantx, "add_xc: helper states are added iff the sampled states are an argument and the helpers are not", detail="flag for the hidden helper-state argument",
-              expected="depends_on(all_args, states) and not depends_on(all_args, self.Xc_vars)", found=kx, fi=f)
-    kz = Norm(None).key(last["add_zc"]) if last["add_zc"] is not None else None
-    wantz = Norm(None).key(ast.parse("add_zc and not depends_on(all_args, self.Zc_vars_rest)", mode="eval").body)
-    ctx.check(kz == wantz, "add_zc: remaining algebraic helpers are added iff 'z' is an argument and they are not", detail="flag for the hidden algebraic-helper argument depends on the wrong condition",
-              expected="add_zc and not depends_on(all_args, self.Zc_vars_rest)", found=kz, fi=f, sample={"add_zc": kz})
-    zmark = [st for st in walk_no_nested(f.node) if isinstance(st, ast.Assign) and ast.unparse(st.targets[0]) == "add_zc" and ast.unparse(st.value) == "True"]
-    ok = len(zmark) == 1 and any("=='z'" in ast.unparse(t).replace(" ", "").replace('"', "'") and p for t, p in sc.guards(zmark[0]))
-    ctx.check(ok, "add_zc is raised by the 'z' marker", detail="marker handling", expected="if e == 'z': args[i] = self.Zc_vars_base; add_zc = True", found="", fi=f)
-    # pairwise augmentation
-    pairs = {}
-    for st in walk_no_nested(f.node):
-        # canonical form of `L += [x]` is L.append(x)
-        if isinstance(st, ast.Call) and isinstance(st.func, ast.Attribute) and st.func.attr == "append" and isinstance(st.func.value, ast.Name) \
-                and st.func.value.id in ("inner_args", "call_args") and len(st.args) == 1:
-            gs = tuple(ast.unparse(t) for t, p in sc.guards(st) if p)
-            pairs.setdefault(gs, {})[st.func.value.id] = (ast.unparse(st.args[0]), sc.order[st])
-    want = {("add_xc",): {"inner_args": "self.Xc_vars", "call_args": "self.Xc_vars0"}, ("add_zc",): {"inner_args": "self.Zc_vars_rest", "call_args": "self.Zc0"}}
-    for flag, w in want.items():
-        got = {k: v[0] for k, v in pairs.get(flag, {}).items()}
-        ctx.check(got == w, "under %s the hidden argument and its initialiser are added together" % flag[0], detail="hidden argument without (or with another) initial value",
-                  expected=w, found=got, fi=f, sample={"flag": flag[0], "pair": got})
-    if all(flag in pairs and len(pairs[flag]) == 2 for flag in want):
-        ox = (pairs[("add_xc",)]["inner_args"][1] < pairs[("add_zc",)]["inner_args"][1]) == (pairs[("add_xc",)]["call_args"][1] < pairs[("add_zc",)]["call_args"][1])
-        ctx.check(ox, "hidden arguments and initialisers are appended in the same order", detail="initial values given to the wrong hidden argument", expected="same relative order", found="", fi=f)
-    rets = [r for r in walk_no_nested(f.node) if isinstance(r, ast.Return) and r.value is not None]
-    ok = len(rets) == 1 and is_call_to(rets[0].value, "Function") and Norm(None).key(rets[0].value) == Norm(None).key(ast.parse("Function(name, f_args, f.call(call_args,True,False), *margs)".replace("name", f.params[2]), mode="eval").body)
-    ctx.check(ok, "the returned function exposes the user's arguments and calls the inner function with arguments + initialisers", detail="outer function", expected="Function(name, f_args, f.call(call_args, True, False), *margs)",
-              found="; ".join(ast.unparse(r.value) for r in rets), fi=f)
-    fa = [d for d in sc.defs.get("f_args", []) if d.kind == "assign"]
-    ok = len(fa) == 1 and Norm(None).key(fa[0].value) == Norm(None).key(ast.parse("f.mx_in()[:len(%s)]" % args, mode="eval").body)
-    ctx.check(ok, "the user's arguments are the first len(args) inputs of the inner function", detail="argument split", expected="f.mx_in()[:len(args)]", found=ast.unparse(fa[0].value) if fa else None, fi=f)
+    # the function is run by the simulator for every combination of (sampled states among the arguments?, helper states among
+    # them?, 'z' marker given?, remaining algebraic helpers among them?); what reaches the inner function and what it is called
+    # with is compared with the pairs (hidden argument, its initialiser) the property prescribes
+    from ..sim import Sim, fresh_obj
+    from ..layout import Sym, Obj, freeze, short, LayoutUnknown
+    K = freeze
+    XC, XC0, ZB, ZR, Z0 = Sym("Xc_vars"), Sym("Xc_vars0"), Sym("Zc_vars_base"), Sym("Zc_vars_rest"), Sym("Zc0")
+    STATES = Sym("sampled_states")
+    n_cases = 0
+    for has_states in (True, False):
+        for has_xc in (False, True):
+            for zmark in (True, False):
+                for has_zr in (False, True):
+                    user = [Sym("arg", 0)] + (["z"] if zmark else []) + [Sym("arg", 1)]
+                    rec = {}
+                    me = fresh_obj("self", Xc_vars=XC, Xc_vars0=XC0, Zc_vars_base=ZB, Zc_vars_rest=ZR, Zc0=Z0)
+                    stage = fresh_obj("stage", x=Sym("x"))
+
+                    def h_depends(sim, recv, a, k, n, has_states=has_states, has_xc=has_xc, has_zr=has_zr):
+                        t = K(a[1])
+                        if t == K(STATES):
+                            return has_states
+                        if t == K(XC):
+                            return has_xc
+                        if t == K(ZR):
+                            return has_zr
+                        return NotImplemented
+
+                    def h_inner(sim, recv, a, k, n, rec=rec):
+                        rec["inner_args"] = list(a[3]) if isinstance(a[3], (list, tuple)) else a[3]
+                        rec["inner_margs"] = list(a[5:])
+                        nin = len(rec["inner_args"]) if isinstance(rec["inner_args"], list) else 0
+                        rec["mx_in"] = [Sym("in", q) for q in range(nin)]
+                        return fresh_obj("inner_f", _mx=rec["mx_in"])
+
+                    def h_call(sim, recv, a, k, n, rec=rec):
+                        if isinstance(recv, Obj) and recv.name == "inner_f":
+                            rec["call_args"] = list(a[0]) if isinstance(a[0], (list, tuple)) else a[0]
+                            return Sym("inner_results")
+                        return NotImplemented
+
+                    def h_function(sim, recv, a, k, n, rec=rec):
+                        rec["outer"] = a
+                        return Sym("outer_f")
+                    hooks = {"depends_on": h_depends, "SamplingMethod.to_function": h_inner, "DirectMethod.to_function": h_inner, ".call": h_call, "Function": h_function,
+                             ".mx_in": lambda s_, r, a, k, n: list(r.attrs["_mx"]) if isinstance(r, Obj) and "_mx" in r.attrs else NotImplemented,
+                             ".sample": lambda s_, r, a, k, n: (Sym("time"), STATES),
+                             "vvcat": lambda s_, r, a, k, n: Sym("vvcat", K(a[0])), "np.all": lambda s_, r, a, k, n: all(a[0]) if isinstance(a[0], list) else NotImplemented}
+                    names = ["n0"] + (["nz"] if zmark else []) + ["n1"]
+                    try:
+                        sim = Sim(P, hooks=hooks, truth={})
+                        sim.call(f, [me, stage, "fname", list(user), Sym("results")], {}, extra_env={f.vararg: [list(names)]} if f.vararg else None)
+                    except LayoutUnknown as e:
+                        raise AnalysisError("DirectCollocation.to_function could not be simulated: %s" % e)
+                    add_xc = has_states and not has_xc
+                    add_zc = zmark and not has_zr
+                    base = [K(ZB) if x == "z" else K(x) for x in user]
+                    want_inner = base + ([K(XC)] if add_xc else []) + ([K(ZR)] if add_zc else [])
+                    got_inner = [K(x) for x in rec.get("inner_args", [])] if isinstance(rec.get("inner_args"), list) else None
+                    mx = rec.get("mx_in", [])
+                    want_call = [K(x) for x in mx[:len(user)]] + ([K(XC0)] if add_xc else []) + ([K(Z0)] if add_zc else [])
+                    got_call = [K(x) for x in rec.get("call_args", [])] if isinstance(rec.get("call_args"), list) else None
+                    label = "states %s, helpers %s, 'z' %s, rest %s" % tuple("given" if b else "absent" for b in (has_states, has_xc, zmark, has_zr))
+                    okc = got_inner == want_inner and got_call == want_call
+                    ctx.check(okc, "to_function (%s): hidden arguments and their initialisers" % label, detail="hidden argument without (or with another) initial value, or added under the wrong condition",
+                              expected="inner arguments = user's (+Xc_vars if states given and helpers absent) (+Zc_vars_rest if 'z' given and rest absent); called with the user's inputs + Xc_vars0 / Zc0 in the same order",
+                              found="inner %s / call %s" % (short(rec.get("inner_args"))[:90], short(rec.get("call_args"))[:90]), fi=f, sample={"case": label})
+                    out = rec.get("outer")
+                    oko = out is not None and len(out) >= 3 and out[0] == "fname" and [K(x) for x in out[1]] == [K(x) for x in mx[:len(user)]] and K(out[2]) == K(Sym("inner_results"))
+                    ctx.check(oko, "to_function (%s): the returned function exposes exactly the user's arguments" % label, detail="outer function", expected="Function(name, first len(args) inputs of the inner function, inner(call_args), ...)",
+                              found=short(out)[:120] if out is not None else None, fi=f)
+                    im = rec.get("inner_margs", [])
+                    want_names = names + (["Xc_vars"] if add_xc else []) + (["Zc_vars_rest"] if add_zc else [])
+                    okn = bool(im) and isinstance(im[0], list) and len(im[0]) == len(want_inner) and im[0][:len(names)] == names
+                    ctx.check(okn, "to_function (%s): input names of the inner function cover the hidden arguments" % label, detail="name list shorter/longer than the argument list", expected=want_names, found=im[0] if im else None, fi=f)
+                    ctx.check(user == [Sym("arg", 0)] + (["z"] if zmark else []) + [Sym("arg", 1)], "to_function (%s): caller's list untouched" % label, detail="caller's argument list modified in place", expected="unchanged", found=short(user), fi=f)
+                    n_cases += 1
     # producers: widths match pairwise
     g = P.own_method("DirectCollocation", "add_variables")
     ng = ctx.norm(g)
